@@ -50,7 +50,7 @@ def table(ctx):
 
 def run(ctx):
     # ---------------- (a) backoff / pushback delays, from the C18 pipeline
-    ctx.mc("RetryMC", "RetryGen19.cfg", workers=4)
+    # (the graph dump below model-checks RetryGen19.cfg with its invariants I_DelayIndex / I_Tokens / I_Bound)
     ctx.neg("RetryMC", "RetryNeg3.cfg", expect="I_DelayIndex", workers=2)
     behs = _retry.generate(ctx, "RetryGen19.cfg", ctx.pick(1500, 10000), ctx.pick(300, 3000))
     tpath = _retry.execute(ctx, behs, "c19")
